@@ -31,6 +31,7 @@ import (
 
 	"cosmossdk.io/collections"
 	sdkmath "cosmossdk.io/math"
+	"github.com/cosmos/gogoproto/proto"
 	abci "github.com/cometbft/cometbft/abci/types"
 	tenderminttypes "github.com/cometbft/cometbft/proto/tendermint/types"
 	cryptocodec "github.com/cosmos/cosmos-sdk/crypto/codec"
@@ -40,6 +41,7 @@ import (
 	distrtypes "github.com/cosmos/cosmos-sdk/x/distribution/types"
 	govtypes "github.com/cosmos/cosmos-sdk/x/gov/types"
 	v1 "github.com/cosmos/cosmos-sdk/x/gov/types/v1"
+	"github.com/cosmos/cosmos-sdk/x/gov/types/v1beta1"
 	slashingtypes "github.com/cosmos/cosmos-sdk/x/slashing/types"
 	stakingtypes "github.com/cosmos/cosmos-sdk/x/staking/types"
 
@@ -81,8 +83,9 @@ func b01(b bool) string {
 // ------------------------------------------------------------------------------------------------- model-side message
 
 type pmsg struct {
-	url  string
-	wf   bool
+	url   string
+	inner string // for a MsgExecLegacyContent: the type url of the wrapped v1beta1 content
+	wf    bool
 	ok   bool
 	act  string // "noop" | "cas,k,o,n" | "credit,fx,other,to" | "setc,url,r,p,q" | "delc,url"
 	real sdk.Msg
@@ -93,7 +96,13 @@ type pmsg struct {
 	creditTo   int
 }
 
-func (m pmsg) word() string { return fmt.Sprintf("%s,%s,%s,%s", m.url, b01(m.wf), b01(m.ok), m.act) }
+func (m pmsg) word() string {
+	u := m.url
+	if m.inner != "" {
+		u += ">" + m.inner
+	}
+	return fmt.Sprintf("%s,%s,%s,%s", u, b01(m.wf), b01(m.ok), m.act)
+}
 
 // ------------------------------------------------------------------------------------------------- harness state
 
@@ -444,6 +453,12 @@ type tallySpec struct {
 	thr, expThr, vetoThr  sdkmath.LegacyDec
 	expedite              bool
 	urls                  []string
+	// dry run of the proposal's messages, in order, on a discarded cache of the state before the block: do they all
+	// succeed, and if not which one fails (error or panic)
+	execOK   bool
+	failIdx  int
+	failWhy  string
+	nMsgs    int
 }
 
 // passes restates the decision on counts perturbed by d (the truncated fractions are unknown: the monitor only judges
@@ -683,6 +698,63 @@ func (h *H) monitor(op string, before, after snap, paidWho int, paid int64, spec
 		out.Count("exec-failed-alone")
 		if before.cells != after.cells || fmt.Sprint(before.custom) != fmt.Sprint(after.custom) {
 			out.Violate("a proposal whose message failed left writes of its earlier messages")
+		}
+	}
+	// (6b) all together or not at all, stated directly for the proposal executed alone in this block: it is PASSED iff
+	// every one of its messages succeeds when run in order (dry run on the state before the block), then every effect is
+	// there; otherwise it is FAILED and no effect is there
+	if nExec == 1 {
+		for _, ts := range specs {
+			ap, ok := after.props[ts.pid]
+			bp := before.props[ts.pid]
+			if !ok || bp.status != "voting" || (ap.status != "passed" && ap.status != "failed") {
+				continue
+			}
+			pos := "only"
+			switch {
+			case ts.execOK:
+				pos = "none"
+			case ts.nMsgs > 1 && ts.failIdx == 0:
+				pos = "first"
+			case ts.nMsgs > 1 && ts.failIdx == ts.nMsgs-1:
+				pos = "last"
+			case ts.nMsgs > 1:
+				pos = "middle"
+			}
+			out.Count(fmt.Sprintf("exec:%s:fails-at-%s-of-%d:%s", ap.status, pos, ts.nMsgs, ts.failWhy))
+			if ap.status == "passed" && !ts.execOK {
+				out.Violate(fmt.Sprintf("proposal with %d messages is PASSED although its message %d fails when executed (%s; fails at: %s): the messages did not take effect all together or not at all", ts.nMsgs, ts.failIdx+1, ts.failWhy, pos))
+			}
+			if ap.status == "failed" && ts.execOK {
+				out.Violate(fmt.Sprintf("proposal with %d messages is FAILED although every message succeeds when executed in order", ts.nMsgs))
+			}
+			// expected effects
+			cells, changedCustom := before.cells, false
+			for _, m := range h.props[ts.pid] {
+				f := strings.Split(m.act, ",")
+				switch f[0] {
+				case "cas":
+					var k, nw int
+					fmt.Sscan(f[1], &k)
+					fmt.Sscan(f[3], &nw)
+					cells[k] = nw
+				case "setc", "delc":
+					changedCustom = true
+				}
+			}
+			if ap.status == "passed" && ts.execOK {
+				if cells != after.cells {
+					out.Violate(fmt.Sprintf("passed proposal: store cells are %v, expected %v after all its messages", after.cells, cells))
+				}
+			}
+			if ap.status == "failed" {
+				for i := range h.accs {
+					if after.bal[i].GT(before.bal[i]) && !strings.HasPrefix(op, "mint ") && perWho[i].IsNil() {
+						out.Violate(fmt.Sprintf("failed proposal: account %d was credited %s by one of its messages", i, after.bal[i].Sub(before.bal[i])))
+					}
+				}
+			}
+			_ = changedCustom
 		}
 	}
 }
@@ -930,6 +1002,31 @@ func (h *H) dueTallies() []tallySpec {
 		for _, m := range p.Messages {
 			ts.urls = append(ts.urls, m.TypeUrl)
 		}
+		ts.execOK, ts.failIdx = true, -1
+		if msgs, err := p.GetMsgs(); err != nil {
+			ts.execOK, ts.failWhy = false, "unpack"
+		} else {
+			ts.nMsgs = len(msgs)
+			ectx, _ := ctx.CacheContext()
+			for i, m := range msgs {
+				m := m
+				res := hx.Try(func() error {
+					hd := h.s.App.MsgServiceRouter().Handler(m)
+					if hd == nil {
+						return fmt.Errorf("unroutable")
+					}
+					_, err := hd(ectx, m)
+					return err
+				})
+				if res != "ok" {
+					ts.execOK, ts.failIdx, ts.failWhy = false, i, "error"
+					if strings.HasPrefix(res, "panic:") {
+						ts.failWhy = "panic"
+					}
+					break
+				}
+			}
+		}
 		specs = append(specs, ts)
 		return false, nil
 	})
@@ -1024,6 +1121,21 @@ func (h *H) msgToggle(exists bool) pmsg {
 	return pmsg{url: sdk.MsgTypeURL(m), wf: true, ok: err == nil, act: "noop", real: m, creditTo: -1}
 }
 
+// msgLegacy: a v1beta1 text proposal wrapped in MsgExecLegacyContent.  The proposal's message — and hence its message type —
+// is the MsgExecLegacyContent; the wrapped content has a type url of its own.
+func (h *H) msgLegacy(wf bool) pmsg {
+	auth := h.gov
+	if !wf {
+		auth = h.accs[0].String()
+	}
+	content := v1beta1.NewTextProposal("t", "d")
+	m, err := v1.NewLegacyContent(content, auth)
+	if err != nil {
+		h.t.Fatalf("NewLegacyContent: %v", err)
+	}
+	return pmsg{url: sdk.MsgTypeURL(m), inner: m.Content.TypeUrl, wf: wf, ok: true, act: "noop", real: m, creditTo: -1}
+}
+
 func (h *H) msgErc20Params() pmsg {
 	m := &erc20types.MsgUpdateParams{Authority: h.gov, Params: erc20types.DefaultParams()}
 	return pmsg{url: sdk.MsgTypeURL(m), wf: true, ok: true, act: "noop", real: m, creditTo: -1}
@@ -1065,6 +1177,7 @@ func newH(t *testing.T, out *hx.Out, rng *rand.Rand, nVal, nAcc int) *H {
 		sdk.MsgTypeURL(&distrtypes.MsgCommunityPoolSpend{}), sdk.MsgTypeURL(&fxgovtypes.MsgUpdateStore{}),
 		sdk.MsgTypeURL(&fxgovtypes.MsgUpdateCustomParams{}), sdk.MsgTypeURL(&erc20types.MsgToggleTokenConversion{}),
 		sdk.MsgTypeURL(&erc20types.MsgUpdateParams{}),
+		sdk.MsgTypeURL(&v1.MsgExecLegacyContent{}), "/" + proto.MessageName(&v1beta1.TextProposal{}),
 	}
 	return h
 }
@@ -1159,6 +1272,35 @@ func (h *H) scenarioEGF() {
 	// mixed denoms
 	h.opSubmit(3, false, 10, []pmsg{h.msgSpend(3, 3, 1, true)})
 	h.opEndBlock(41)
+	h.opEndBlock(1)
+}
+
+// scenario Legacy: custom parameters configured for the MsgExecLegacyContent type url and, separately, for the type url
+// of the wrapped content; a legacy text proposal (regular and expedited) must get the period and quorum of ITS message
+// type, the wrapper's.
+func (h *H) scenarioLegacy() {
+	h.opParams(defaultParams())
+	for i := range h.accs {
+		h.opMint(i, 1_000_000)
+	}
+	outer := sdk.MsgTypeURL(&v1.MsgExecLegacyContent{})
+	inner := "/" + proto.MessageName(&v1beta1.TextProposal{})
+	h.opCustom(outer, false, big.NewInt(0), 25, frac(3, 4))
+	h.opCustom(inner, false, big.NewInt(0), 45, frac(1, 4))
+	h.opSubmit(0, false, 1000, []pmsg{h.msgLegacy(true)})
+	h.opSubmit(1, true, 5000, []pmsg{h.msgLegacy(true), h.msgLegacy(true)})
+	h.opSubmit(2, false, 1000, []pmsg{h.msgLegacy(false)})
+	// two of three validators: turnout 2/3 is below the wrapper's quorum 3/4 and above the content's 1/4
+	for _, pid := range []uint64{1, 2} {
+		h.opVote(pid, 100, one("yes"))
+		h.opVote(pid, 101, one("yes"))
+	}
+	h.opEndBlock(25)
+	h.opEndBlock(1)
+	h.opCustom(outer, true, nil, 0, nil)
+	h.opVote(2, 100, one("yes"))
+	h.opVote(2, 101, one("yes"))
+	h.opEndBlock(34)
 	h.opEndBlock(1)
 }
 
@@ -1389,7 +1531,11 @@ func (h *H) randomMsgs() []pmsg {
 		n = 0
 	}
 	var ms []pmsg
-	switch r.Intn(6) {
+	switch r.Intn(7) {
+	case 6: // legacy content: the message type is MsgExecLegacyContent, whatever it wraps
+		for i := 0; i < n; i++ {
+			ms = append(ms, h.msgLegacy(r.Intn(12) != 0))
+		}
 	case 0, 1: // community pool spend
 		for i := 0; i < n; i++ {
 			fx := hx.Pick(r, []int64{0, 3, 4, 5, 9990, 9995, 10000, 10005, 10015, 20000, 50000})
@@ -1639,6 +1785,11 @@ func TestC15(t *testing.T) {
 		h := newH(t, out, rng, 3, 4)
 		h.start(facts)
 		h.scenarioEGF()
+	}
+	{
+		h := newH(t, out, rng, 3, 4)
+		h.start(facts)
+		h.scenarioLegacy()
 	}
 	for _, sl := range []bool{false, true} {
 		h := newH(t, out, rng, 4, 4)
